@@ -20,23 +20,23 @@ NA = {
 }
 CHECKS = {
  "C03": ("exploration", "6.1",
-   "Seeded search over call histories (alpha-set shape changes, backend/precision switches, drops, GC) on pools of interpolator instances; every call is judged against a fresh instance (history clause), the closed-form piecewise reference and the scalar implementation. The history clause is searched; 'for all alpha' is sampled at breakpoint-biased pool points inside the histories.",
+   "Seeded search over call histories (alpha-set shape changes, backend/precision switches, drops, GC) on pools of interpolator instances (incl. sibling instances evaluated back to back before anything is judged); every call is judged against a fresh instance (history clause), the closed-form piecewise reference and the scalar implementation. The history clause is searched; 'for all alpha' is sampled at breakpoint-biased pool points inside the histories.",
    "reference formulae in sim/ref/interp.py (code 2 in its continuous form, code 4 polynomial from an exactly solved system); 64-eps error model in the working precision; clean batch = evidence over sampled histories",
    "deterministic simulation: seeded call-history search with switch/GC faults, fresh-instance + closed-form reference oracles, ddmin replay"),
  "C11": ("exploration", "6.2",
-   "Seeded search over histories of create/switch/drop/gc/evaluate/infer on the real global backend register and event bus; each surviving object is compared with a twin built fresh under the current backend; a clean batch is evidence over the sampled histories, not proof.",
+   "Seeded search over histories of create/switch/drop/gc/evaluate/infer on the real global backend register and event bus; each surviving object (single, or several evaluated back to back before any twin is built) is compared with a twin built fresh under the current backend on evaluation and on inference (fits, test statistics, asymptotic and seeded toy-based hypotests, limits); a clean batch is evidence over the sampled histories, not proof.",
    "twin built by the same pyhf code defines the reference; 8-ulp tolerance; GC scheduled by the simulator; process restart emulated by reset",
    "deterministic simulation: seeded history search with scheduled GC/drop faults, twin-object oracle, ddmin replay"),
  "C14": ("exploration", "6.3",
-   "Every random draw is owned by the simulator: scripted samplers (rate-revealing, stratified-quantile) make the sampling and toy p-value checks exact, seeded real generators add exact-tail statistical checks at 1e-9; the call history of one toy experiment is recorded and compared with the prescribed order.",
+   "Every random draw is owned by the simulator: scripted samplers (rate-revealing, stratified-quantile) make the sampling and toy p-value checks exact, seeded real generators add exact-tail statistical checks at 1e-9; the calculator's reported p-values are judged as exact tail fractions; the call history of one toy experiment (also under the caller's own init/bounds/fixed settings) is recorded and compared with the prescribed order.",
    "exact Poisson tail sums for counting models as reference; scripted sampler replaces tensorlib.poisson_dist/normal_dist().sample only; per-test false-alarm probability 1e-9",
    "deterministic simulation: owned RNG (scripted sampler stub + logged seeds), recorded call history vs reference, exact-tail oracles"),
  "C17": ("fault_enumeration", "6.4",
-   "Per generated (workspace, patch-set) document pair every leaf of the workspace is corrupted once, plus key additions/removals, benign re-serialisations and one corruption per recorded digest, interleaved with load/lookup/verify/apply judged against a reference lookup table, canonical-text equality and an independent RFC-6902 applier; half of the segments hand verify/apply one long-lived in-memory object that is corrupted and restored in place. Exhaustive over single-leaf faults per document; documents (incl. look-alike keys, empty patches, cross-section moves, non-ASCII names) are sampled.",
+   "Per generated (workspace, patch-set) document pair every leaf of the workspace is corrupted once, plus key additions/removals, benign re-serialisations and one corruption per recorded digest, interleaved with load/lookup/verify/apply judged against a reference lookup table, canonical-text equality and an independent RFC-6902 applier; half of the segments hand verify/apply one long-lived in-memory object that is corrupted and restored in place; results of apply are edited in place and patches re-applied. Exhaustive over single-leaf faults per document; documents (incl. look-alike keys of other iterable types, verbatim duplicates, empty patches, cross-section moves, non-ASCII names) are sampled.",
    "own RFC-6902 applier and canonical JSON equality as reference; documents generated schema-valid",
    "fault enumeration on stored documents inside seeded op sequences (flip/add/remove/reserialise/restore), reference-model oracles, ddmin replay"),
  "C18": ("exploration", "6.5",
-   "Seeded sessions of export/import/chdir/re-export/rmtree/restart over a real scratch directory with injected write failures, crashes, torn and missing files; every import of a completely exported directory must reproduce the original's structure and log-likelihood whatever happened before.",
+   "Seeded sessions of export/import/chdir/re-export/rmtree/restart over a real scratch directory with injected write failures, crashes, torn and missing files; every import of a completely exported directory must reproduce the original's structure and log-likelihood whatever happened before, including in-place edits of earlier import results.",
    "uproot is the ROOT codec; reference disk model {absent, complete(ws), torn}; likelihood compared at seeded points by parameter name; 1e-9 relative",
    "deterministic simulation: seeded session histories over a simulated disk with I/O fault injection and restarts, disk reference model, ddmin replay"),
  "C19": ("exploration", "6.6",
@@ -44,7 +44,7 @@ CHECKS = {
    "click CliRunner + canonical reset as process model (validated against real subprocesses in the thorough tier); option semantics re-implemented by hand in the reference",
    "deterministic simulation: seeded CLI session histories over a simulated disk with file faults and process restarts, library-call reference, ddmin replay"),
  "C20": ("fault_enumeration", "6.7",
-   "For each generated valid spec (accepted un-faulted) every fault class of the statement is injected at every applicable position, plus sampled pairs (incl. same-class and compensating pairs) and benign controls, through both construction routes; outcome must be one of pyhf's own exceptions. Exhaustive over positions per spec; specs sampled. Two accepted cases are recorded as known findings.",
+   "For each generated valid spec (accepted un-faulted) every fault class of the statement is injected at every applicable position, plus sampled pairs (incl. same-class, compensating and same-parameter-name pairs) and benign controls, through both construction routes and their validate=False / batched variants; outcome must be one of pyhf's own exceptions. Exhaustive over positions per spec; specs sampled. Two accepted cases are recorded as known findings.",
    "fault injector defines 'structurally inconsistent'; controls keep it honest; exception must be defined in pyhf.exceptions",
    "single-step fault injection enumerated over all positions of seeded specs, control look-alikes, ddmin replay"),
 }
